@@ -37,8 +37,12 @@ type Program struct {
 	// all source-level functions of the package (incl. anonymous ones and methods),
 	// keyed by RelString ("checkOnce", "(*T).cleanup", "checkOnce$1", "(*customGen[V]).maybeValue")
 	Funcs     map[string]*ssa.Function
-	FuncList  []*ssa.Function
+	FuncList  []*ssa.Function // host functions: all source functions except transparent helpers (see transparent.go)
+	AllFuncs  []*ssa.Function // every source function, helpers included
 	NumInstrs int
+
+	callers map[*ssa.Function]*callerInfo
+	transp  map[*ssa.Function]bool
 
 	useVTA bool
 	cg     *callgraph.Graph
@@ -116,6 +120,7 @@ func loadProgram(dir, goos, goarch string, useVTA bool) (*Program, error) {
 		useVTA: useVTA,
 		cells:  map[*ssa.Alloc]*cellInfo{},
 		binds:  map[*ssa.FreeVar]ssa.Value{},
+		transp: map[*ssa.Function]bool{},
 	}
 
 	// collect source functions of the root package: members, methods of named types, and their anonymous functions
@@ -152,6 +157,13 @@ func loadProgram(dir, goos, goarch string, useVTA bool) (*Program, error) {
 		}
 	}
 	sort.Slice(p.FuncList, func(i, j int) bool { return p.FuncList[i].Pos() < p.FuncList[j].Pos() })
+	p.AllFuncs = p.FuncList
+	p.FuncList = nil
+	for _, fn := range p.AllFuncs {
+		if !p.transparent(fn) {
+			p.FuncList = append(p.FuncList, fn)
+		}
+	}
 	if len(p.FuncList) < 300 {
 		return nil, fmt.Errorf("only %d source functions found (floor 300): incomplete load", len(p.FuncList))
 	}
